@@ -168,6 +168,8 @@ inductive Op where
   | burn (src : Addr) (amount : Int)
   | burnFrom (spender src : Addr) (amount : Int)
   | transferOwnership (new : Addr)
+  /-- the owner upgrades the token to its own code and runs the (empty) migration: the window opens and closes again -/
+  | upgradeMigrate
 
 def apply (st : State) (c : Ctx) : Op → Except Err (State × List Event)
   | .mintFrom m t a => mintFrom st c m t a
@@ -180,12 +182,25 @@ def apply (st : State) (c : Ctx) : Op → Except Err (State × List Event)
   | .burn s a => burn st c s a
   | .burnFrom p s a => burnFrom st c p s a
   | .transferOwnership n => transferOwnership st c n
+  | .upgradeMigrate => if st.owner ∉ c.auths then .error .unauthorized else .ok (st, [])
+
+/-- upgrade to the same code + the empty migration: it succeeds only with the owner's authorisation and changes nothing -/
+theorem apply_upgradeMigrate_ok (st : State) (c : Ctx) (r : State × List Event)
+    (h : apply st c .upgradeMigrate = .ok r) : r = (st, []) ∧ st.owner ∈ c.auths := by
+  simp only [apply] at h
+  split at h
+  · cases h
+  · rename_i hc; cases h; exact ⟨rfl, Decidable.not_not.mp hc⟩
 
 /-- one invocation with the host's rollback -/
 def step (st : State) (c : Ctx) (op : Op) : State × Except Err (List Event) :=
   match apply st c op with
   | .ok (st', evs) => (st', .ok evs)
   | .error e => (st, .error e)
+
+theorem step_upgradeMigrate_fst (st : State) (c : Ctx) : (step st c .upgradeMigrate).1 = st := by
+  simp only [step, apply]
+  by_cases h : st.owner ∈ c.auths <;> simp [h]
 
 /-- a history: each operation comes with its own ledger context (authorisations, ledger sequence) -/
 def run (st : State) : List (Ctx × Op) → State
